@@ -87,6 +87,9 @@ func firstCall(idx uint64) (prior string, st Step) {
 		st.Origins = next(2) * 2
 		ls := next(len(simpleKinds))
 		st.Ls = &Beh{Kind: simpleKinds[ls]}
+		if st.Ls.Kind == "err_plain" {
+			st.Ls.Progress = int(idx % 3) // not consumed: the variant rides on the next choice
+		}
 		a := next(6)
 		switch a {
 		case 0, 1, 2, 3:
@@ -107,6 +110,9 @@ func firstCall(idx uint64) (prior string, st Step) {
 		st.Op = "lscid"
 		st.Direct = next(2) == 1
 		st.Ls = &Beh{Kind: simpleKinds[next(len(simpleKinds))]}
+		if st.Ls.Kind == "err_plain" {
+			st.Ls.Progress = next(3)
+		}
 	}
 	return prior, st
 }
@@ -132,7 +138,7 @@ func (H) Generate(prop, tier string, seed uint64) *simkit.Plan {
 		if r.Intn(10) < okBias {
 			return &Beh{Kind: "ok"}
 		}
-		return &Beh{Kind: kinds[r.Intn(len(kinds))], DelayMs: r.Pick(3, 1) * r.Range(0, 3000), Progress: r.Intn(2)}
+		return &Beh{Kind: kinds[r.Intn(len(kinds))], DelayMs: r.Pick(3, 1) * r.Range(0, 3000), Progress: r.Intn(6)}
 	}
 	for i := 0; i < n; i++ {
 		s := Step{Cid: r.Intn(3), DelayMs: r.Range(0, 2000)}
@@ -326,6 +332,14 @@ func (d *daemon) RoundTrip(req *http.Request) (*http.Response, error) {
 		<-ctx.Done()
 		return nil, ctx.Err()
 	case "err_plain":
+		// a failure that is not an IPFS error object: a proxy's HTML page, the API's
+		// plain-text refusal, an empty body
+		switch b.Progress % 3 {
+		case 1:
+			return jsonResp(req, 403, "403 - Forbidden\n", nil), nil
+		case 2:
+			return jsonResp(req, 500, "", nil), nil
+		}
 		return jsonResp(req, 502, "<html>bad gateway</html>", nil), nil
 	case "garbage":
 		return jsonResp(req, 200, "{not json", nil), nil
@@ -639,6 +653,14 @@ func (H) Execute(t *testing.T, plan *simkit.Plan, run *simkit.Run) {
 				if len(mutating) > 0 {
 					run.Violate("C16/request_when_already_pinned", "", "cid%d was already pinned %s, yet %s was requested", s.Cid%3, want, mutating[0].Path)
 				}
+				// nothing at all besides the probe (requests nothing when the CID is
+				// already pinned as asked): not a dial of the origins either
+				for _, r := range reqs {
+					if r.Path != "pin/ls" && r.Path != "pin/add" && r.Path != "pin/update" {
+						run.Violate("C16/request_when_already_pinned", "other", "cid%d was already pinned %s, yet besides pin/ls the daemon was asked %s (origins: %d)", s.Cid%3, want, r.Path, s.Origins)
+						break
+					}
+				}
 				if err != nil {
 					run.Violate("C16/error_when_already_pinned", "", "cid%d was already pinned %s but Pin failed: %v", s.Cid%3, want, err)
 				}
@@ -658,6 +680,11 @@ func (H) Execute(t *testing.T, plan *simkit.Plan, run *simkit.Run) {
 			}
 			if s.Ls != nil && (s.Ls.Kind == "transport" || s.Ls.Kind == "stall" || s.Ls.Kind == "drop_body" || s.Ls.Kind == "stall_body") && err == nil {
 				run.Violate("C16/transport_failure_reported_as_success", "pin/ls", "pin/ls could not reach the daemon (%s) but Pin returned nil", s.Ls.Kind)
+			}
+			if s.Ls != nil && s.Ls.Kind == "err_plain" && err == nil {
+				// the status probe failed with something that is not an IPFS answer
+				// (proxy page, refusal, empty 500): a daemon failure, to be reported
+				run.Violate("C16/daemon_failure_reported_as_success", "pin/ls:err_plain", "pin/ls was answered with a non-JSON failure (variant %d) but Pin returned nil", s.Ls.Progress%3)
 			}
 			// pin/update discipline
 			for _, r := range mutating {
@@ -733,6 +760,11 @@ func (H) Execute(t *testing.T, plan *simkit.Plan, run *simkit.Run) {
 			} else if s.Ls != nil && (s.Ls.Kind == "transport" || s.Ls.Kind == "stall" || s.Ls.Kind == "garbage" || s.Ls.Kind == "drop_body" || s.Ls.Kind == "stall_body") {
 				if err == nil {
 					run.Violate("C16/transport_failure_reported_as_success", "pin/ls", "pin/ls failed (%s) but PinLsCid returned %v without error", s.Ls.Kind, st)
+				}
+			} else if s.Ls != nil && s.Ls.Kind == "err_plain" {
+				run.Probe("lscid_non_json_failure")
+				if err == nil {
+					run.Violate("C16/daemon_failure_reported_as_success", "pin/ls:err_plain", "pin/ls was answered with a non-JSON failure (variant %d) but PinLsCid returned %v without error", s.Ls.Progress%3, st)
 				}
 			}
 		}
